@@ -442,11 +442,11 @@ func (p *Program) tableWriters(tb *Table) []string {
 
 // tableAliasWriters: further conditions under which a table may be read as a
 // constant when it is reached as an object rather than by name.
-//  - scalar map table: the map object may flow anywhere (parameters, results), so
-//    no instruction of the repository may update or delete from a map of the
-//    table's type, except a map made by make() in the same function;
-//  - nested table: the rows handed out by a lookup stay local to the function
-//    that looked them up and are only read (len, cap, element read, local variable).
+//   - scalar map table: the map object may flow anywhere (parameters, results), so
+//     no instruction of the repository may update or delete from a map of the
+//     table's type, except a map made by make() in the same function;
+//   - nested table: the rows handed out by a lookup stay local to the function
+//     that looked them up and are only read (len, cap, element read, local variable).
 func (p *Program) tableAliasWriters(tb *Table) []string {
 	var bad []string
 	if tb.Global == nil {
